@@ -26,6 +26,8 @@ def absB (b : B) : BSt :=
 
 def partCodes : Part → List String
   | .instr c m _ => [(tableLookup c m).getD "?"]
+  | .gcode i _ _ => [i]
+  | .ainstr c m _ _ => [(tableLookup c m).getD "?"]
   | _ => []
 def partWords : Part → List (String × Rat)
   | .instr _ _ ws => ws
@@ -34,10 +36,15 @@ def partWords : Part → List (String × Rat)
   | .gcode _ _ ws => ws
   | .ainstr _ _ _ ws => ws
   | .comment => []
-/-- a translated statement as (instructions of the source table, words) -/
-def conv (s : SStmt) : List String × List (String × Rat) := (s.flatMap partCodes, s.flatMap partWords)
+def partAx : Part → Pt
+  | .gcode _ ax _ => ax
+  | .ainstr _ _ ax _ => ax
+  | _ => {}
+/-- a translated statement as (instructions of the source table, axis words, other words) -/
+def conv (s : SStmt) : List String × Pt × List (String × Rat) :=
+  (s.flatMap partCodes, (s.head?.map partAx).getD {}, s.flatMap partWords)
 /-- a model statement, the same way -/
-def view (s : Stmt) : List String × List (String × Rat) := (s.codes.map Code.text, s.words)
+def view (s : Stmt) : List String × Pt × List (String × Rat) := (s.codes.map Code.text, s.ax, s.words)
 
 def AgreesB (r : Res) (b : B) (g : BSt × Option Err) : Prop :=
   match g.2 with
@@ -84,7 +91,7 @@ theorem tl :
 /-- the unfolding set shared by the proofs below -/
 macro "builder_simp" " [" ts:Lean.Parser.Tactic.simpLemma,* "]" : tactic =>
   `(tactic| simp [Val.fin?, step, AgreesB, accept, reject, fmtWords, getStatement, GCodeBuilder.write, GState._set_halt_mode, coreWrite,
-      absB, absG, conv, view, partCodes, partWords, tl, Code.text, stepToolOff, stepPowerOff, stepCoolOff, stepSetDist, modeStmt,
+      absB, absG, conv, view, partCodes, partWords, partAx, tl, Code.text, stepToolOff, stepPowerOff, stepCoolOff, stepSetDist, modeStmt,
       spinOf, powOf, coolOf, swapOf, tempOf, fmodeOf, planeOf, $ts,*])
 
 theorem BuilderTie_tool_on (b : B) (m : SpinArg) (v : Val) (hd : Val.isDouble v) :
@@ -337,4 +344,4 @@ theorem BuilderTie_update_axes (b : B) (target req : Pt) (ps : List (String × R
 
 /-! Non-vacuity: a rejected `tool_on` with the spindle running, and an accepted one. -/
 example : (GCodeBuilder.tool_on (absB { toolActive := true, spin := .cw }) (.val .COUNTER) (.fin 100)).2 = some .toolState := by decide +kernel
-example : ((GCodeBuilder.tool_on (absB {}) (.val .CLOCKWISE) (.fin 100)).1.out.map conv) = [(["M03"], [("S", 100)])] := by decide +kernel
+example : ((GCodeBuilder.tool_on (absB {}) (.val .CLOCKWISE) (.fin 100)).1.out.map conv) = [(["M03"], {}, [("S", 100)])] := by decide +kernel
